@@ -68,7 +68,13 @@ def discards(b, scope_callee=None):
         hit = False
         if not io_like and not real:
             continue   # unused non-I/O results (infallible conversions etc.) are not error discards
+        # `is_ok()` / `is_err()` only look at the result (`&self`): when the value is also consumed elsewhere (returned, matched, `?`)
+        # the error is not dropped by the look
+        peek = lambda u: u[0] == 'call' and re.search(r'Result::<.*>::(is_ok|is_err)$', u[2]['f'].get('fn', '') or '')
+        consumed = any(not peek(u) for u in real)
         for k, j, x in real:
+            if consumed and peek((k, j, x)):
+                continue
             if k == 'call' and DISC.search(x['f'].get('fn', '')):
                 out.append((i, x['f']['fn'].split('::')[-1], fn))
                 hit = True
